@@ -446,6 +446,23 @@ pub fn verify_self_check(reqs: &[Request], results: &[Result<Response, String>],
     Ok(n)
 }
 
+/// `Pool::run`, then one retry (fresh workers) of the requests whose worker died or hit the
+/// wall-clock watchdog — on an oversubscribed box a request can starve without anything being wrong.
+/// A request that fails twice keeps its `Err` and is reported by the caller.
+pub fn run_with_retry(pool: &Pool, reqs: &[Request]) -> (Vec<Result<Response, String>>, usize) {
+    let mut results = pool.run(reqs);
+    let failed: Vec<usize> = results.iter().enumerate().filter(|(_, r)| r.is_err()).map(|(i, _)| i).collect();
+    if !failed.is_empty() {
+        let again: Vec<Request> = failed.iter().map(|&i| reqs[i].clone()).collect();
+        for (k, r) in pool.run(&again).into_iter().enumerate() {
+            if r.is_ok() {
+                results[failed[k]] = r;
+            }
+        }
+    }
+    (results, failed.len())
+}
+
 /// Rebuild one package alone in Mode A through the pool (fresh worker process).
 pub fn build_alone_mode_a(pool: &Pool, name: &str, src: &str, mut s: BuildSpec) -> Result<BuildOut, String> {
     s.mode_a = true;
